@@ -13,6 +13,7 @@ import json, time, itertools, copy
 import core
 from core import Result
 from props import geolib as G
+from props import geomodel as M
 
 ID = 'C10'
 MODULE = 'PyTough.Props.C10'
@@ -119,6 +120,9 @@ def fresh_name(g, kind, rng, length=3):
             return nm
 
 
+MAX_LAYERS = 60      # refine_layers regenerates every layer name; conventions 0/3 have 2-character layer names
+
+
 def column_layer_ops(mg, g, rng, subset_cap):
     """every column/layer editing operation applicable to g, with every column subset as argument
     (subset enumeration capped at `subset_cap` subsets per operation: all when 2^n - 1 <= cap, else all
@@ -172,7 +176,8 @@ def column_layer_ops(mg, g, rng, subset_cap):
     lays = [l.name for l in g.layerlist[1:]]
     for s in subsets(lays)[:15]:
         for f in (2, 3, 4):
-            ops.append(['refine_layers', {'layers': s, 'factor': f}])
+            if len(lays) + len(s) * (f - 1) <= MAX_LAYERS:
+                ops.append(['refine_layers', {'layers': s, 'factor': f}])
     ops.append(['refine_layers', {'factor': 2}])
     for l in lays:
         ops.append(['rename_layer', {'old': l, 'new': fresh_name(g, 'layer', rng, g.layername_length)}])
@@ -195,7 +200,7 @@ def random_op(mg, g, rng, inv):
     cols = sorted(g.columnlist, key=G.ckey)
     if not G.consistent(inv) and rng.random() < 0.8:
         return [rng.choice(['roundtrip', 'setup_names', 'setup_names', 'identify_neighbours']
-                           + (['refine_layers'] if inv['num_layers'] and len(g.layerlist) > 1 else []))]
+                           + (['refine_layers'] if inv['num_layers'] and 1 < len(g.layerlist) <= MAX_LAYERS // 2 else []))]
     if not G.mesh_valid(inv) and rng.random() < 0.6:
         return ['check_fix']
     healthy = G.consistent(inv) and G.mesh_valid(inv)
@@ -259,10 +264,12 @@ def random_op(mg, g, rng, inv):
     if r < 0.36 and len(g.layerlist) > 1:
         l = rng.choice(g.layerlist[1:])
         return ['rename_layer', {'old': l.name, 'new': fresh_name(g, 'layer', rng, g.layername_length)}]
-    if r < 0.42 and len(g.layerlist) > 1 and len(g.layerlist) < 40:
+    if r < 0.42 and len(g.layerlist) > 1:
         lays = [l.name for l in g.layerlist[1:]]
-        return ['refine_layers', {'layers': rng.sample(lays, rng.randint(1, len(lays))) if rng.random() < 0.8 else [],
-                                  'factor': rng.choice([2, 2, 3, 4])}]
+        f = rng.choice([2, 2, 3, 4])
+        sel = rng.sample(lays, rng.randint(1, len(lays))) if rng.random() < 0.8 else []
+        if len(lays) + len(sel or lays) * (f - 1) <= MAX_LAYERS:      # more layers than the convention can name: not an edit
+            return ['refine_layers', {'layers': sel, 'factor': f}]
     if r < 0.47 and len(cols) > 2:
         keep = some_cols(max(2, len(cols) - 1))
         return ['reduce', {'cols': L(keep)}]
@@ -348,13 +355,47 @@ def opsig(op):
     return '%s%s' % (op[0], '[bisect=%s%s]' % (a.get('bisect'), ',edge' if a.get('edge') else '') if op[0] == 'refine' else '')
 
 
+class Ties:
+    """budgeted use of the compiled model: at most `cap` histories are driven through drv_c10"""
+
+    def __init__(self, ctx, mg, res, cap):
+        self.ctx, self.mg, self.res, self.cap = ctx, mg, res, cap
+        self.used = 0
+        self.fac_ops = res.facet('geo_ops')
+        self.fac_inv = res.facet('geo_inv')
+
+    def make(self):
+        if not self.ctx.model_ok or self.used >= self.cap:
+            return None
+        self.used += 1
+        return M.ModelTie(self.mg)
+
+    def done(self, tie, recipe, ops):
+        if tie is None:
+            return
+        tie.close()
+        self.fac_ops['cases'] += tie.steps + tie.loaded
+        self.fac_inv['cases'] += tie.inv_checked
+        self.res.unstable += tie.unstable
+        for k, v in tie.stats.items():
+            self.res.count('model:' + k, v)
+        for c, (a, b) in tie.hyp.items():
+            h = self.res.hyp.setdefault('GeoInv clause %s holds (model state)' % c, [0, 0])
+            h[0] += a
+            h[1] += b
+        for d in tie.disagreements:
+            d['case'] = {'recipe': recipe, 'ops': ops, 'at': d['case']}
+            self.res.disagreements.append(d)
+            (self.fac_inv if d['facet'] == 'geo_inv' else self.fac_ops)['disagreements'] += 1
+
+
 def record(res, viols, recipe, ops, label):
     for v in viols:
         res.violations.append(dict(key=v['key'], what='%s: %s' % (label, v['what']),
                                    case={'recipe': recipe, 'ops': ops[:v['step'] + 1]}))
 
 
-def exhaustive(ctx, mg, res, deadline):
+def exhaustive(ctx, mg, res, deadline, ties):
     """every sequence of length <= depth of column/layer editing operations on the small geometries"""
     rng = ctx.rng('exhaustive')
     depth = ctx.n(2, 3)
@@ -367,7 +408,9 @@ def exhaustive(ctx, mg, res, deadline):
         g0 = G.build(mg, recipe)
         ops1 = column_layer_ops(mg, g0, rng, cap1)
         for op1 in ops1:
-            v, t, g1 = G.run_sequence(mg, recipe, [op1], ctx.tmp, KNOWN())
+            tie = ties.make() if nseq % 2 == 0 or not ctx.quick else None
+            v, t, g1 = G.run_sequence(mg, recipe, [op1], ctx.tmp, KNOWN(), observer=tie)
+            ties.done(tie, recipe, [op1])
             nseq += 1
             res.evaluations += 1
             res.count('len1:' + opsig(op1))
@@ -387,7 +430,9 @@ def exhaustive(ctx, mg, res, deadline):
                     ops3 = column_layer_ops(mg, g2, rng, cap2)
                     seqs += [[op1, op2, o3] for o3 in rng.sample(ops3, min(len(ops3), 6))]
                 for seq in seqs:
-                    v, t, _ = G.run_sequence(mg, recipe, seq, ctx.tmp, KNOWN())
+                    tie = ties.make() if rng.random() < ctx.n(0.05, 0.5) else None
+                    v, t, _ = G.run_sequence(mg, recipe, seq, ctx.tmp, KNOWN(), observer=tie)
+                    ties.done(tie, recipe, seq)
                     nseq += 1
                     res.evaluations += 1
                     res.count('len%d' % len(seq))
@@ -414,7 +459,7 @@ def big_recipes(mg, rng):
     return out
 
 
-def random_sequences(ctx, mg, res, deadline):
+def random_sequences(ctx, mg, res, deadline, ties=None):
     rng = ctx.rng('random')
     nseq = ctx.n(40, 600)
     done = 0
@@ -434,14 +479,20 @@ def random_sequences(ctx, mg, res, deadline):
             ops, v = [], []
             prev = G.geoinv(g)
             length = rng.randint(3, 25)
+            tie = ties.make() if ties is not None and len(g.columnlist) <= 120 else None
+            if tie is not None:
+                tie.start(g, prev, {'step': -1})
             for step in range(length):
                 if len(g.columnlist) > 300:
                     break
                 op = random_op(mg, g, rng, prev)
                 ops.append(op)
                 info = {}
+                cmd = tie.before(step, op, g) if tie is not None else None
                 g, exc = G.apply_op(mg, g, op, ctx.tmp, info)
                 cur = G.geoinv(g)
+                if tie is not None:
+                    tie.after(step, op, g, exc, cmd, prev, cur, info)
                 vs = G.judge(op[0], exc, prev, cur, info.get('suffix', ''))
                 for x in vs:
                     x['step'] = step
@@ -452,6 +503,8 @@ def random_sequences(ctx, mg, res, deadline):
                     res.count('exc:%s@%s' % (exc, op[0]))
                 if exc is not None or any(x['key'] not in KNOWN() for x in vs):
                     break
+            if ties is not None:
+                ties.done(tie, recipe, ops)
             res.evaluations += 1
             res.count('random-len', len(ops))
             res.count('start:' + label.rstrip('0123456789x'))
@@ -472,9 +525,10 @@ def run(ctx):
                 '3..25 over all operations on rectangular grids, strips and patches of the shipped geometries (<= 300 columns), with file '
                 'round trips interleaved; distinct = distinct (start geometry, operation list); every one is non-trivial (>= 1 edit)')
     t0 = time.time()
-    exhaustive(ctx, mg, res, t0 + ctx.n(35, 600))
-    random_sequences(ctx, mg, res, t0 + ctx.n(60, 1000))
-    res.facet('geo_ops')
+    ties = Ties(ctx, mg, res, ctx.n(900, 100000))
+    exhaustive(ctx, mg, res, t0 + ctx.n(40, 600), ties)
+    random_sequences(ctx, mg, res, t0 + ctx.n(70, 1000), ties)
+    res.count('model:histories-tied', ties.used)
     return res
 
 
